@@ -18,7 +18,9 @@ LEVEL = "exploration"
 RULE = ("(a) all scripts of length <= L over {stop, improve}^2 per call (L=3 quick, 4 thorough) x period P "
         "(2 quick; 1,2,3 thorough); (b) all validation-loss sequences of length 5 over {1,2,3} x patience {0,1,2} x "
         "early stopping enabled/disabled by direct compiled calls; (c) ValidationLoss inside solve with its own "
-        "data / parameter / observation generators x period x patience; non-trivial = a script with at least one "
+        "data / parameter / observation generators x period x patience; (d) the same scripted / built-in runs with a NaN "
+        "update injected (user optax transformation) at an iteration where validation is invoked, or just before it: "
+        "that invocation must see the post-update NaN parameters and the run ends there; non-trivial = a script with at least one "
         "stop or improvement / a sequence with a tie or a non-monotone step; distinct = distinct scripts / sequences")
 ASSUMPTIONS = [
     "the scripted module is exact about what it returns; its log is delivered by jax.debug.callback (events are keyed by call index, so delivery order is irrelevant)",
@@ -27,9 +29,9 @@ ASSUMPTIONS = [
 ]
 TIMEOUT = {"quick": 2400, "thorough": 7200}
 MIN_COUNTERS = {"quick": {"scripted_runs": 80, "validation_calls_logged": 120, "builtin_direct_calls": 3000, "builtin_in_solve_runs": 8,
-                          "runs_stopped_early": 20},
+                          "runs_stopped_early": 20, "validation_calls_on_nan_params": 8},
                 "thorough": {"scripted_runs": 900, "validation_calls_logged": 1200, "builtin_direct_calls": 7000,
-                             "builtin_in_solve_runs": 60, "runs_stopped_early": 200}}
+                             "builtin_in_solve_runs": 60, "runs_stopped_early": 200, "validation_calls_on_nan_params": 30}}
 _LOG = []
 
 
@@ -50,6 +52,21 @@ def gen_cases(tier, seed):
     for P in periods:
         for i in range(0, len(scripts), chunk):
             cases.append(dict(mode="scripted", scripts=scripts[i:i + chunk], P=P, seed=seed, cost=chunk * 0.6))
+    # a NaN update injected at iteration k (C18's fault) meeting the validation schedule: the invocation at k must
+    # see the post-update (NaN) parameters, the run ends after k; k on a call iteration and one before it
+    fscripts = []
+    for l in (2, 3):
+        for prefix in itertools.product((0, 2), repeat=l - 1):
+            for last in range(4):
+                fscripts.append((list(prefix) + [last], l - 1, 0))
+        for prefix in itertools.product((0, 2), repeat=l - 1):
+            fscripts.append((list(prefix) + [2], l - 1, -1))
+    for P in periods:
+        for i in range(0, len(fscripts), chunk):
+            part = [(sc, j * P + off) for sc, j, off in fscripts[i:i + chunk] if j * P + off >= 0 and (off == 0 or P > 1)]
+            if part:
+                cases.append(dict(mode="scripted", scripts=[sc for sc, _ in part], faults=[k for _, k in part], P=P,
+                                  seed=seed, cost=chunk * 0.8))
     seqs = list(itertools.product((1, 2, 3), repeat=5))
     for pat in (0, 1, 2):
         for en in (True, False):
@@ -60,6 +77,10 @@ def gen_cases(tier, seed):
             for en in (True, False):
                 for aux in ["none", "param", "obs", "both"]:
                     k += 1
+                    if aux == "none" and pat == 2:
+                        # a run with a NaN update at an iteration where the built-in validation is invoked
+                        cases.append(dict(mode="insolve", P=P, patience=pat, enabled=en, aux=aux, seed=seed * 1000 + k,
+                                          fault=2 * P, cost=3.0))
                     if q and k % 4 != (P + pat) % 4:
                         continue
                     cases.append(dict(mode="insolve", P=P, patience=pat, enabled=en, aux=aux, seed=seed * 1000 + k, cost=3.0))
@@ -78,6 +99,25 @@ def digest(params):
 
 
 _CLS = {}
+
+
+def nan_update_at(base, k):
+    """base optimizer followed by a user transformation that turns the update of step k into NaN (k None: none)"""
+    import jax
+    import jax.numpy as jnp
+    import optax
+
+    if k is None:
+        return base
+
+    def init(params):
+        return jnp.zeros((), jnp.int32)
+
+    def update(updates, state, params=None):
+        hit = jnp.where(state == k, jnp.nan, 0.0)
+        return jax.tree_util.tree_map(lambda x: x + hit, updates), state + 1
+
+    return optax.chain(base, optax.GradientTransformation(init, update))
 
 
 def scripted_cls():
@@ -131,7 +171,9 @@ def run_scripted(case, rec):
     opt = optax.sgd(5e-3)
     Scripted = scripted_cls()
     vgc = {}
-    for script in case["scripts"]:
+    for si, script in enumerate(case["scripts"]):
+        fault = case["faults"][si] if case.get("faults") else None
+        opt = nan_update_at(optax.sgd(5e-3), fault)
         L = len(script)
         n = (L - 1) * P + 1 + (P - 1)  # last scripted call at (L-1)P, then up to the next call exclusive
         K = -(-n // P) + 1
@@ -154,8 +196,10 @@ def run_scripted(case, rec):
         _LOG.clear()
         rec.count("scripted_runs")
         rec.count("validation_calls_logged", len(log))
-        label = "script=%s P=%d n=%d" % (script, P, n)
-        sig = "scripted"
+        label = "script=%s P=%d n=%d%s" % (script, P, n, "" if fault is None else " NaN update at iteration %d" % fault)
+        sig = "scripted" if fault is None else "scripted/nan-fault"
+        if fault is not None:
+            rec.count("scripted_runs_with_nan_fault")
         # ---- automaton (A.4) for the schedule, independent of the reference loop
         exp_calls, stop_at = [], None
         for i in range(n):
@@ -165,6 +209,9 @@ def run_scripted(case, rec):
                 if stops[j]:
                     stop_at = i
                     break
+            if fault is not None and i == fault:
+                stop_at = i  # C18: the run ends after the failing iteration (its validation call included)
+                break
         n_done = (stop_at + 1) if stop_at is not None else n
         if stop_at is not None:
             rec.count("runs_stopped_early")
@@ -182,7 +229,9 @@ def run_scripted(case, rec):
                           "iterations %s" % (label, len(log), [k for k, _ in log], len(exp_calls), exp_calls))
         else:
             for (k, dg), (k2, dr) in zip(log, ref_log):
-                if abs(dg - dr) > 1e-9 * max(1.0, abs(dr)):
+                if np.isnan(dr):
+                    rec.count("validation_calls_on_nan_params")
+                if np.isnan(dg) != np.isnan(dr) or (not np.isnan(dr) and abs(dg - dr) > 1e-9 * max(1.0, abs(dr))):
                     rec.violation(sig + "/params-seen-by-validation",
                                   "%s: call %d received parameters with digest %r, the post-update parameters of iteration "
                                   "%d have digest %r" % (label, k, dg, exp_calls[k], dr))
@@ -304,7 +353,7 @@ def run_insolve(case, rec):
         pr.u0 = old_u0
     val = ValidationLoss(loss=vloss, validation_data=vdata, validation_param_data=vparam, validation_obs_data=vobs,
                          call_every=P, early_stopping=en, patience=pat)
-    opt = optax.sgd(5e-3)
+    opt = nan_update_at(optax.sgd(5e-3), case.get("fault"))
     n = 9
     out = guard.call(jinns.solve, n_iter=n, init_params=Pb["params"], data=Pb["data"], loss=Pb["loss"], optimizer=opt,
                      param_data=Pb["param_data"], obs_data=Pb["obs_data"], validation=val, verbose=False)
@@ -342,7 +391,13 @@ def run_insolve(case, rec):
     h, c = np.asarray(hist), np.asarray(crit)
     label = "P=%d patience=%d enabled=%s aux=%s" % (P, pat, en, case["aux"])
     sig = "builtin/in-solve"
-    rec.nontrivial((P, pat, en, case["aux"], case["seed"]))
+    if case.get("fault") is not None:
+        label += " NaN update at iteration %d" % case["fault"]
+        sig += "/nan-fault"
+        rec.count("builtin_in_solve_runs_with_nan_fault")
+        if nd == case["fault"] + 1 and np.isnan(ref["crit"][nd - 1]):
+            rec.count("validation_calls_on_nan_params")
+    rec.nontrivial((P, pat, en, case["aux"], case["seed"], case.get("fault")))
     rec.set_sample(P=P, patience=pat, enabled=en, aux=case["aux"], crit=c, expected=ref["crit"], stopped_after=nd)
     diverged = refloop.has_nan(ref["final_params"])
     if diverged:
